@@ -37,7 +37,7 @@ macro_rules! inv_mod2k {
         }
     };
 }
-//@ name=c10_k8_inv_mod2k_1 prop=C10,C15,C11 tier=quick profile=k8 funcs="Uint::inv_mod2k,Uint::inv_mod2k_vartime,Uint::inv_mod2k_full_vartime" bound="u8 words, Uint<1>: every a, every k in 0..=8" free_bits=12
+//@ name=c10_k8_inv_mod2k_1 prop=C10,C15,C11 tier=quick profile=k8 funcs="Uint::inv_mod2k,Uint::inv_mod2k_vartime,Uint::inv_mod2k_full_vartime" bound="u8 words, Uint<1>: every a, every k in 0..=8" free_bits=12 core=C15,C11
 inv_mod2k!(c10_k8_inv_mod2k_1, 1, any_uint());
 //@ name=c10_k8_inv_mod2k_2 prop=C10,C15,C11 tier=quick profile=k8 funcs="Uint::inv_mod2k,Uint::inv_mod2k_vartime,Uint::inv_mod2k_full_vartime" bound="u8 words, Uint<2>: every a, every k in 0..=16" free_bits=21
 inv_mod2k!(c10_k8_inv_mod2k_2, 2, any_uint());
